@@ -603,6 +603,16 @@ def validate(img, devblk=4096):
             add("S4: compressor options payload of %d bytes, expected %d" % (len(img.comp_opts), want))
         elif img.comp == 5 and struct.unpack("<I", img.comp_opts[:4])[0] != 1:
             add("S4: lz4 options version != 1")
+        elif img.comp == 4:
+            # format.adoc: "must be either a power of 2, or the sum of two consecutive powers of 2" (the kernel's xz wrapper checks it)
+            ds = struct.unpack("<I", img.comp_opts[:4])[0]
+            low = ds & -ds
+            if ds == 0 or not (ds == low or ds == (low | (low << 1))):
+                add("S4: xz dictionary size %d is neither 2^n nor 2^n + 2^(n+1)" % ds)
+        elif img.comp == 1:
+            lvl, win = struct.unpack("<IH", img.comp_opts[:6])
+            if not (1 <= lvl <= 9) or not (8 <= win <= 15):
+                add("S4: gzip options level %d window %d outside 1..9 / 8..15" % (lvl, win))
     if fl & F_UNC_INODES and any(c for p, (pl, st, c) in img.meta.items() if p in img.table_blocks["inode"]):
         add("S4: UNCOMPRESSED_INODES flag but a compressed inode block exists")
 
